@@ -472,3 +472,35 @@ Definition memb_of_table (tbl : list (list nset * list nat)) (l : list nset) : l
   | Some (_, m) => m
   | None => seq 0 (length l)
   end.
+
+(* ------------------------------------------------------------------ *)
+(* path_random.RandomOptimizer.__call__:
+     for Nrem in range(N - 1, 0, -1):
+         i = j = rng.randint(0, Nrem)
+         while j == i: j = rng.randint(0, Nrem)
+         path.append((i, j))
+   [ds] = the raw random numbers; randint(0, Nrem) is ANY value in [0, Nrem] = raw mod (Nrem+1).
+   None = the draws ran out (rejection sampling is not guaranteed to stop) *)
+Fixpoint skip_eq (m i : nat) (ds : list nat) : option (nat * list nat) :=
+  match ds with
+  | [] => None
+  | d :: ds' => if Nat.eqb (Nat.modulo d m) i then skip_eq m i ds' else Some (Nat.modulo d m, ds')
+  end.
+Fixpoint random_path (nrem : nat) (ds : list nat) : option path :=
+  match nrem with
+  | 0 => Some []
+  | S nr' =>
+      match ds with
+      | [] => None
+      | d :: ds1 =>
+          let i := Nat.modulo d (S nrem) in
+          match skip_eq (S nrem) i ds1 with
+          | None => None
+          | Some (j, ds2) => match random_path nr' ds2 with
+                             | Some p => Some ([i; j] :: p)
+                             | None => None
+                             end
+          end
+      end
+  end.
+Definition random_optimizer_path (n : nat) (ds : list nat) : option path := random_path (n - 1) ds.
